@@ -1,6 +1,6 @@
 """Property table: which monitors decide which property, on which groups, with which budgets."""
 import os, time
-from check import Bin, build_all, run_sharded, finish, Fold
+from check import Bin, build_all, run_sharded, finish, Fold, header_coverage
 
 CORE = ['SO2', 'SE2', 'SO3', 'SE3', 'SE23', 'SGAL3', 'R3']
 BUNDLES_Q = ['BT1', 'BT4']                 # quick: two heterogeneous triples (cover SE2 SO3 SE3 / SE_2_3 SGal3 R3)
@@ -10,7 +10,7 @@ SHARD = 25000
 
 def numeric(prop, src, build='asan', nq=20000, nt=1000000, groups_q=None, groups_t=None, float_groups=None,
             rule='', assumptions=(), level='exploration', timeout_q=900, timeout_t=7200, extra_defs=(), float_n_scale=1.0,
-            extra_bins=None, shard=SHARD, n_scale=None, post=None, min_shards=1, extra_jobs=None):
+            extra_bins=None, shard=SHARD, n_scale=None, post=None, min_shards=1, extra_jobs=None, cov_groups=('SE2', 'SO3', 'SE3', 'SE23', 'SGAL3', 'BT1'), cov_n=1500):
     gq = groups_q if groups_q is not None else CORE + ['R1', 'R9'] + BUNDLES_Q
     gt = groups_t if groups_t is not None else CORE + ['R1', 'R9'] + BUNDLES_T
     fg = float_groups if float_groups is not None else CORE
@@ -49,8 +49,10 @@ def numeric(prop, src, build='asan', nq=20000, nt=1000000, groups_q=None, groups
         if f2: fail = (fail or '') + f2
         if post: post(fold)
         spec = {'rule': rule, 'assumptions': list(assumptions), 'level': level}
+        gs_all = [g for g, sc in combos(tier) if sc == 'double']
+        cov = header_coverage(p, [{'src': src, 'defs': ['MG=' + g, 'MS=double'] + list(extra_defs), 'n': cov_n, 'seed': seed, 'stubs': build == 'jet'} for g in cov_groups if g in gs_all]) if cov_groups else None
         return finish(p, tier, seed, fold, spec, t0, harness_fail=fail,
-                      extra_cov={'groups': sorted(set(b.defs[0][3:] + '/' + b.defs[1][3:] for b in bs if len(b.defs) >= 2)), 'build': build, 'compile_s': round(dt, 1),
+                      extra_cov={'anchored_header_line_coverage': cov, 'groups': sorted(set(b.defs[0][3:] + '/' + b.defs[1][3:] for b in bs if len(b.defs) >= 2)), 'build': build, 'compile_s': round(dt, 1),
                                  'cases_per_group': n})
 
     return {'bins': bins, 'run': run}
@@ -211,7 +213,8 @@ def c08_spec():
                 'element is checked (finite, | ||q||-1 | < Constants::eps in long double); %s steps per (group, schedule) in the assertion-enabled ASan build and %s in the NDEBUG -O2 build; a cell is (group, schedule, operation) actually executed; '
                 'window maxima (1e5 steps) are recorded to show the deviation has no trend' % (steps['asan'], steps['opt']),
                 'assumptions': ASSUME_FP + ['coordinates are kept below 1e6 by rescaling the translation-like coefficients (overflow of translations is not what is claimed)']}
-        return finish(p, tier, seed, fold, spec, t0, harness_fail=fail, extra_cov={'groups': ['%s/%s' % gs for gs in groups], 'schedules': scheds, 'builds': ['asan (assertions on)', 'opt (-O2 -DNDEBUG)']})
+        cov = header_coverage(p, [{'src': 'c08_history.cpp', 'defs': ['MG=' + g, 'MS=double'], 'n': 200000, 'seed': seed, 'args': ['--arg', 'sched=' + sc]} for g in ('SO2', 'SE2', 'SO3', 'SE3') for sc in ('uniform', 'square')])
+        return finish(p, tier, seed, fold, spec, t0, harness_fail=fail, extra_cov={'anchored_header_line_coverage': cov, 'groups': ['%s/%s' % gs for gs in groups], 'schedules': scheds, 'builds': ['asan (assertions on)', 'opt (-O2 -DNDEBUG)']})
     return {'bins': bins, 'run': run}
 REGISTRY['C08'] = c08_spec()
 
